@@ -44,6 +44,16 @@ func checkC01(c *Ctx) {
 	c.Floor("SEPARATOR", 1)
 	c.whoMayCall("WHO-MAY-CALL", c.Func("io/newick", "Parser", "scan"), map[string]string{"scanIgnoreWhitespace": "skips the white-space token itself", "consumeComment": "a comment's text keeps its blanks"}, "reading back gives the same tree")
 	c.Floor("WHO-MAY-CALL", 2)
+	c.Decides("GUARD-LEN: a writer loop over a slice that sits under a test of that slice's length runs whenever the slice is not empty (no comment list is skipped because of its size); COMMENT-STORED (go/cfg): a comment the Newick parser has read is attached to a node or a branch, or an error is raised, on every path; PARSED-STORED (go/cfg): every number the Newick parser parses can reach a setter of the tree before its variable is assigned again")
+	c.guardLen("GUARD-LEN", []*FuncInfo{c.Func("tree", "Node", "Newick"), c.Func("tree", "Tree", "Newick")}, "the same comments")
+	c.Floor("GUARD-LEN", 1)
+	c.commentStored("COMMENT-STORED", c.Func("io/newick", "Parser", "parseIter"), "the same comments")
+	c.Floor("COMMENT-STORED", 1)
+	c.parsedStored("PARSED-STORED", c.Func("io/newick", "Parser", "parseIter"), "the same lengths and supports")
+	c.Floor("PARSED-STORED", 3)
+	c.Decides("MUST-EOT (go/cfg): the Newick Parse function reports success only after testing the token that follows the tree against EOT")
+	c.mustSeeEOT("MUST-EOT", c.Func("io/newick", "Parser", "Parse"), "reading back gives the same tree")
+	c.Floor("MUST-EOT", 1)
 	c.Decides("TRIM-WS: the Newick reader (package io/newick) removes nothing but white space from the texts it reads: every strings.Trim*/Replace* call there is TrimSpace or has a constant white-space cut set")
 	if nt, _ := c.trimWhiteSpaceOnly("TRIM-WS", c.AllFuncs("io/newick"), "the same tip and internal-node names"); nt == 0 {
 		c.Undecided("TRIM-WS", "scan", token.NoPos, "no trimming call seen in io/newick (the TrimSpace of tip names was the instance confirmed by hand)")
